@@ -75,6 +75,13 @@ func c15Program(r *rand.Rand) gast.Program {
 			} else {
 				out = append(out, mut(pickV()))
 			}
+		case 10:
+			// keep the index / element of an early iteration and look at it after the loop
+			keep := pickV()
+			out = append(out, gast.Foreach{Idx: "ix", Var: "e", It: gast.ArrayLit{Els: []gast.Expr{c15Lit(r), c15Lit(r), c15Lit(r)}}, Body: []gast.Stmt{
+				gast.If{C: gast.Infix{Op: "==", L: id("ix"), R: gast.IntLit{V: int64(r.Intn(2))}}, Then: []gast.Stmt{gast.Assign{Name: keep, X: id([]string{"ix", "e"}[r.Intn(2)])}, gast.Assign{Name: "arr", X: gast.ArrayLit{Els: []gast.Expr{id("ix"), id("e")}}}}},
+			}})
+			out = append(out, mut(keep))
 		case 9:
 			// the field itself as target of a mutator (creates a variable of that name)
 			out = append(out, mut([]string{"FI", "FF"}[r.Intn(2)]))
